@@ -1170,18 +1170,40 @@ def term_int(t):
     return None
 
 
+def position_payload(off):
+    """the `position(..)` call whose found index `off` is: `(position(..) as Some).0` or `position(..).ok_or(e)?`; else None"""
+    off = strip_transparent(off)
+    if not (isinstance(off, tuple) and len(off) == 3 and off[0] == 'field' and off[2] == '0' and isinstance(off[1], tuple) and off[1][0] == 'downcast' and off[1][2] in ('Some', 'Continue')):
+        return None
+    pc = off[1][1]
+    while isinstance(pc, tuple) and pc and pc[0] in ('ref', 'deref'):
+        pc = pc[1]
+    if off[1][2] == 'Continue':
+        if not (isinstance(pc, tuple) and pc[0] == 'call' and pc[1].endswith('Try>::branch') and len(pc[2]) == 1):
+            return None
+        pc = strip_transparent(pc[2][0])
+        if not (isinstance(pc, tuple) and pc[0] == 'call' and pc[1].split('::')[-1] in ('ok_or', 'ok_or_else') and pc[1].startswith('std::option::Option')):
+            return None
+        pc = strip_transparent(pc[2][0])
+    if isinstance(pc, tuple) and pc[0] == 'call' and pc[1].split('::')[-1] in ('position',) and pc[2]:
+        return pc
+    return None
+
+
+def iterated_slice(it):
+    """the slice term an iterator term runs over (through iter / into_iter / by_ref / copied / cloned and references)"""
+    while isinstance(it, tuple) and it and (it[0] in ('ref', 'deref', 'cast') or (it[0] == 'call' and len(it[2]) == 1 and it[1].split('::')[-1] in ('iter', 'into_iter', 'by_ref', 'copied', 'cloned'))):
+        it = it[1] if it[0] != 'call' else it[2][0]
+    return it
+
+
 def found_offset_sum(a, b):
     """`start + offset` where offset is the payload of `position(..)` run over the part of a slice that begins at `start`
     (`x.iter().skip(start)`, `x.get(start..)?.iter()`, `x[start..].iter()`): an element exists at start + offset, so the
     sum is a valid index of x (< isize::MAX) whatever `start` is.  Returns the slice term x, else None."""
     for start, off in ((a, b), (b, a)):
-        off = strip_transparent(off)
-        if not (isinstance(off, tuple) and len(off) == 3 and off[0] == 'field' and off[2] == '0' and isinstance(off[1], tuple) and off[1][0] == 'downcast' and off[1][2] == 'Some'):
-            continue
-        pc = off[1][1]
-        while isinstance(pc, tuple) and pc and pc[0] in ('ref', 'deref'):
-            pc = pc[1]
-        if not (isinstance(pc, tuple) and pc[0] == 'call' and pc[1].split('::')[-1] in ('position',) and pc[2]):
+        pc = position_payload(off)
+        if pc is None:
             continue
         it = pc[2][0]
         while isinstance(it, tuple) and it and (it[0] in ('ref', 'deref', 'cast') or (it[0] == 'call' and len(it[2]) == 1 and it[1].split('::')[-1] in ('iter', 'into_iter', 'by_ref', 'copied', 'cloned'))):
@@ -1192,7 +1214,14 @@ def found_offset_sum(a, b):
         if it[0] == 'call' and it[1].split('::')[-1] == 'skip' and len(it[2]) == 2 and strip_transparent(it[2][1]) == st:
             return strip_transparent(it[2][0])
         sub = None
-        if it[0] == 'field' and it[2] == '0' and isinstance(it[1], tuple) and it[1][0] == 'downcast' and it[1][2] == 'Some':
+        if it[0] == 'call' and it[1].split('::')[-1] in ('unwrap_or_default',) and it[1].startswith('std::option::Option') and len(it[2]) == 1:
+            # `x.get(start..).unwrap_or_default()`: the part from `start` on, or nothing; an element found in it lies in x
+            g = it[2][0]
+            while isinstance(g, tuple) and g and g[0] in ('ref', 'deref'):
+                g = g[1]
+            if isinstance(g, tuple) and g[0] == 'call' and g[1].split('::')[-1] == 'get' and g[1].startswith('core::slice::') and len(g[2]) == 2:
+                sub = g
+        elif it[0] == 'field' and it[2] == '0' and isinstance(it[1], tuple) and it[1][0] == 'downcast' and it[1][2] == 'Some':
             g = it[1][1]
             while isinstance(g, tuple) and g and g[0] in ('ref', 'deref'):
                 g = g[1]
